@@ -39,6 +39,9 @@ type scripted struct {
 	readErr  map[uint16]error
 	used     map[uint32]bool // every TSN ever put into a packet for the endpoint
 	arwndNow uint32          // a_rwnd to advertise in honest SACKs (0: arwnd)
+	// base "est-unread": complete honest messages the application has not read yet
+	unread     *Stream
+	unreadWant []string
 }
 
 // sackCum is the cumulative point the endpoint currently has for its own data.
